@@ -4,6 +4,7 @@
 # then the horizontal relaxation (+ins, column-1 of the current row).  Row 0 is the insertion ramp.
 
 
+# reference for pero_ocr.sequence_alignment:levenshtein_distance
 def levenshtein_distance(source, target, sub_cost=1, ins_cost=1, del_cost=1):
     target = np.array(target)
     dist = np.arange(len(target) + 1) * ins_cost
@@ -16,6 +17,7 @@ def levenshtein_distance(source, target, sub_cost=1, ins_cost=1, del_cost=1):
     return dist[-1]
 
 
+# reference for pero_ocr.sequence_alignment:levenshtein_alignment
 def levenshtein_alignment(source, target, sub_cost=1, ins_cost=1, del_cost=1, empty_symbol=None):
     target = np.array(target)
     backtrack = np.ones((len(source) + 1, len(target) + 1))      # +1: came from the row above (deletion of a source symbol)
@@ -45,6 +47,7 @@ def levenshtein_alignment(source, target, sub_cost=1, ins_cost=1, del_cost=1, em
     return alig
 
 
+# reference for pero_ocr.sequence_alignment:levenshtein_alignment_path
 def levenshtein_alignment_path(source, target, sub_cost=1, ins_cost=1, del_cost=1, empty_symbol=None):
     target = np.array(target)
     backtrack = np.ones((len(source) + 1, len(target) + 1))
@@ -73,6 +76,7 @@ def levenshtein_alignment_path(source, target, sub_cost=1, ins_cost=1, del_cost=
     return list(reversed(align))
 
 
+# reference for pero_ocr.sequence_alignment:edit_stats_for_alignment
 def edit_stats_for_alignment(alig, empty_symbol=None):
     if len(alig) == 0:
         return 0, 0, 0, 0, 0
@@ -85,6 +89,7 @@ def edit_stats_for_alignment(alig, empty_symbol=None):
     return nphn, ncor, nins, ndel, nsub
 
 
+# reference for pero_ocr.sequence_alignment:levenshtein_distance_substring
 def levenshtein_distance_substring(source, target, sub_cost=1, ins_cost=1, del_cost=1):
     # the shorter sequence is matched against any substring of the longer one:
     # column 0 stays free (free leading part), the extra last cell is the running minimum (free trailing part)
@@ -104,6 +109,7 @@ def levenshtein_distance_substring(source, target, sub_cost=1, ins_cost=1, del_c
     return dist[-1]
 
 
+# reference for pero_ocr.sequence_alignment:levenshtein_alignment_substring
 def levenshtein_alignment_substring(source, target, sub_cost=1, ins_cost=1, del_cost=1, empty_symbol=None):
     swapped = False
     if len(target) > len(source):
